@@ -2,6 +2,6 @@ CONSTANTS
   MaxLen = 12
   Faults <- FaultFromEnv
 SPECIFICATION Spec
-INVARIANTS TypeOK ReadInBounds AllocBounded TotalBounded WorkBounded CursorInside OutcomeTotal
+INVARIANTS TypeOK ReadInBounds AllocBounded WorkBounded CursorInside OutcomeTotal
 PROPERTIES ChunkProgress ArrayProgress StringProgress Termination
 CHECK_DEADLOCK TRUE
